@@ -27,6 +27,7 @@ type job struct {
 	// Configs (Route "RecipientEncrypt"): SetWorkFactor calls made, each inside
 	// a recover, on a fresh ScryptRecipient before it encrypts a file alone.
 	Configs []int64 `json:"configs,omitempty"`
+	RecOps  []recOp `json:"rec_ops,omitempty"`
 	// Steps, when present, make the job a history: all steps run in order on
 	// ONE identity value (unless a step asks for another object), and the
 	// outcome of step i is outcome.Sub[i]. Route/Stanzas/File/Meter above are
@@ -53,6 +54,19 @@ type step struct {
 	// guards a setter that has no error return. The harness's idea of the
 	// object's configured maximum is NOT changed by it.
 	BadMax *int64 `json:"bad_max,omitempty"`
+	// CopyFrom: a configuration-only step that makes object ID a STRUCT COPY
+	// (b := *a) of object *CopyFrom as it is now.
+	CopyFrom *int `json:"copy_from,omitempty"`
+}
+
+// recOp is one operation of a recipient history (Route "RecipientHistory"):
+// "set" = guarded SetWorkFactor(Val) on object ID; "copy" = object ID becomes a
+// struct copy of object From; "wrap" = object ID encrypts a file alone.
+type recOp struct {
+	Op   string `json:"op"`
+	ID   int    `json:"id"`
+	From int    `json:"from,omitempty"`
+	Val  int64  `json:"val,omitempty"`
 }
 
 // outcome is what the code under test did with a job.
@@ -111,6 +125,9 @@ func execute(j *job) (o outcome) {
 	if j.Route == "RecipientEncrypt" {
 		return recipientEncrypt(j)
 	}
+	if j.Route == "RecipientHistory" {
+		return recipientHistory(j)
+	}
 	if len(j.Steps) == 0 {
 		return runCall(id, j.Route, j.Stanzas, j.File, j.Meter)
 	}
@@ -121,6 +138,17 @@ func execute(j *job) (o outcome) {
 	}
 	objs := map[int]*obj{0: {id, j.Pass, j.Max}}
 	for _, st := range j.Steps {
+		if st.CopyFrom != nil {
+			src := objs[*st.CopyFrom]
+			if src == nil {
+				o.Err = "harness: copy of an object that does not exist"
+				return o
+			}
+			cp := *src.id // the struct copy under test
+			objs[st.ID] = &obj{&cp, src.pass, src.cur}
+			o.Sub = append(o.Sub, outcome{})
+			continue
+		}
 		ob := objs[st.ID]
 		if ob == nil {
 			pass := st.Pass
@@ -168,6 +196,68 @@ func panics(f func()) (p bool) {
 	}()
 	f()
 	return false
+}
+
+// loneEncrypt encrypts a small file to rcp alone and returns it in Plain.
+func loneEncrypt(rcp *age.ScryptRecipient) (o outcome) {
+	var buf bytes.Buffer
+	run := func() {
+		defer func() {
+			if p := recover(); p != nil {
+				o.Panic = fmt.Sprintf("%v\n%s", p, debug.Stack())
+			}
+		}()
+		w, err := age.Encrypt(&buf, rcp)
+		if err != nil {
+			o.Err = err.Error()
+			return
+		}
+		if _, err := w.Write([]byte("recipient configuration")); err != nil {
+			o.Err = err.Error()
+			return
+		}
+		if err := w.Close(); err != nil {
+			o.Err = err.Error()
+			return
+		}
+		o.Accepted = true
+	}
+	o.Delta = mon.AllocDelta(run)
+	o.Plain = buf.Bytes()
+	return o
+}
+
+// recipientHistory runs set / copy / wrap operations over several recipient
+// values; object 0 is a fresh recipient, the others come from copies.
+func recipientHistory(j *job) (o outcome) {
+	first, err := age.NewScryptRecipient(j.Pass)
+	if err != nil {
+		o.Err = "harness: " + err.Error()
+		return o
+	}
+	objs := map[int]*age.ScryptRecipient{0: first}
+	for _, op := range j.RecOps {
+		switch op.Op {
+		case "copy":
+			src := objs[op.From]
+			if src == nil {
+				o.Err = "harness: copy of a recipient that does not exist"
+				return o
+			}
+			cp := *src // the struct copy under test
+			objs[op.ID] = &cp
+			o.Sub = append(o.Sub, outcome{})
+		case "set":
+			rcp, v := objs[op.ID], int(op.Val)
+			o.Sub = append(o.Sub, outcome{CfgPanicked: []bool{panics(func() { rcp.SetWorkFactor(v) })}})
+		case "wrap":
+			o.Sub = append(o.Sub, loneEncrypt(objs[op.ID]))
+		default:
+			o.Err = "harness: unknown recipient operation " + op.Op
+			return o
+		}
+	}
+	return o
 }
 
 // recipientEncrypt: a fresh passphrase recipient, the guarded SetWorkFactor
